@@ -26,10 +26,12 @@ ParentInputType = TypeVar("ParentInputType")
 PARENT_CACHE_SIZE = 1000
 
 
-@lru_cache(maxsize=PARENT_CACHE_SIZE)
 def _unique_value_or_none(values: Iterable[Optional[str]]) -> Optional[str]:
     """Checks if a set of values contains more than one distinct non-null value. If so, raises ValueError.
-    Otherwise, returns the single unique non-null value (if there is one) or None if all values are None."""
+    Otherwise, returns the single unique non-null value (if there is one) or None if all values are None.
+
+    Not memoized: ``SequenceType`` members compare and hash equal to their string values, so a result cache keyed on
+    the values handed back whichever spelling (``"chromosome"`` or ``SequenceType.CHROMOSOME``) was seen first."""
     values = {x for x in values if x is not None}
     if len(values) == 1:
         return values.pop()
